@@ -102,18 +102,37 @@ static Result judge_newc(int kind, uint64_t n) {
   if (!m.empty()) { r.ok = false; r.msg = std::string(kind == 0 ? "cbor_new_definite_array(" : "cbor_new_definite_map(") + u64s(n) + "): " + m; }
   return r;
 }
+// sizes the decoder requests for a bare head whatever the declared count is (item header, stack record, ...):
+// those that appear for both n = 1 and n = 2.  Computed once per kind from the implementation itself, so that no
+// request pattern is hard-coded here.
+static const std::vector<size_t>& structural_sizes(int kind) {
+  static std::vector<size_t> cache[2]; static bool have[2] = {false, false};
+  if (!have[kind]) {
+    std::vector<size_t> logs[2];
+    for (uint64_t n = 1; n <= 2; n++) {
+      rec_reset();
+      uint8_t in[9]; in[0] = kind == 0 ? 0x9b : 0xbb; for (int i = 0; i < 8; i++) in[1 + i] = (uint8_t)(n >> (8 * (7 - i)));
+      struct cbor_load_result res; cbor_item_t* it = cbor_load(in, 9, &res); if (it) cbor_decref(&it);
+      logs[n - 1] = va::g.size_log; va::release_all();
+    }
+    for (size_t a : logs[0]) for (size_t b : logs[1]) if (a == b) { cache[kind].push_back(a); break; }
+    have[kind] = true;
+  }
+  return cache[kind];
+}
 static Result judge_head(int kind, uint64_t n) {
   Result r; r.klass = "HEAD"; r.nontrivial = n >= (1ull << 56);
+  const std::vector<size_t>& structural = structural_sizes(kind);
   rec_reset();
   uint8_t in[9]; in[0] = kind == 0 ? 0x9b : 0xbb; for (int i = 0; i < 8; i++) in[1 + i] = (uint8_t)(n >> (8 * (7 - i)));
   size_t slot = kind == 0 ? sizeof(cbor_item_t*) : sizeof(struct cbor_pair);
   struct cbor_load_result res; cbor_item_t* it = cbor_load(in, 9, &res);
   u128 need = (u128)n * slot; std::string m;
-  // requests: item header (fixed small size), slot storage, possibly a stack record: anything that is neither
-  // sizeof(cbor_item_t)-like nor >= need is an under-allocation.  Small fixed requests are < 64 bytes.
-  bool storage_ok = n == 0; for (size_t s : va::g.size_log) if ((u128)s >= need) storage_ok = true;
-  bool storage_asked = va::g.size_log.size() >= 2;
-  if (n > 0 && storage_asked && !storage_ok && need >= 64) m = "the decoder asked the allocator only for small blocks although the head declares " + u64s(n) + " entries";
+  // a request that is not one of the count-independent ones is the slot storage: it must cover the declared count
+  if (n > 2) for (size_t rq : va::g.size_log) {
+    bool is_structural = false; for (size_t st : structural) if (st == rq) is_structural = true;
+    if (!is_structural && (u128)rq < need) m = "the decoder asked the allocator for " + u64s(rq) + " bytes for a head declaring " + u64s(n) + " entries of " + std::to_string(slot) + " bytes";
+  }
   if (it) { if (n != 0) m = "cbor_load returned an item for a bare " + std::string(kind == 0 ? "array" : "map") + " head declaring " + u64s(n) + " entries"; cbor_decref(&it); }
   else if (n > 0 && res.error.code != CBOR_ERR_MEMERROR && res.error.code != CBOR_ERR_NOTENOUGHDATA) m = std::string("unexpected error code ") + ref::code_name(res.error.code);
   if (va::g.live_blocks) { if (m.empty()) m = "blocks left allocated"; }
